@@ -191,7 +191,7 @@ def _lit_expr(i):
 
 
 LIT_SRC = ["1", '"s"', "True", '1, "s"']
-N_STMT = 12
+N_STMT = 14
 
 
 def _ind(lines):
@@ -252,8 +252,16 @@ def stmt_tree(sel, cur, depth: int, found: list, path: str):
     if k == 10:
         b, l = inner("with")
         return [shim.with_stmt(b)], ["with cm:", *_ind(l)]
-    b, l = inner("case")
-    return [shim.match_stmt([filler, b])], ["match s:", "    case 1:", *_ind(_ind(fl)), "    case _:", *_ind(_ind(l))]
+    if k == 11:
+        b, l = inner("case")
+        return [shim.match_stmt([filler, b])], ["match s:", "    case 1:", *_ind(_ind(fl)), "    case _:", *_ind(_ind(l))]
+    if k == 12:  # try with BOTH an else and a finally clause, return in the finally clause
+        b, l = inner("finally")
+        return [shim.try_stmt(filler, handlers=[filler], else_body=filler, finally_body=b)], [
+            "try:", *_ind(fl), "except Exception:", *_ind(fl), "else:", *_ind(fl), "finally:", *_ind(l)]
+    b, l = inner("try-else")  # ... return in the else clause
+    return [shim.try_stmt(filler, handlers=[filler], else_body=b, finally_body=filler)], [
+        "try:", *_ind(fl), "except Exception:", *_ind(fl), "else:", *_ind(l), "finally:", *_ind(fl)]
 
 
 def inferred(sel: List[int]) -> bool:
